@@ -170,11 +170,31 @@ def three_callers(rng):
     return {"isa": "X64", "ff": "ELF", "text": text, "externs": ["ext_a"], "edits": edits}
 
 
+def retarget_chain(rng):
+    """main1 calls fa, main2 calls fb; fa is retargeted to fb and fb to fc (a chain): each request names its own old
+    symbol, so the order in which the two are registered must not matter"""
+    text = [
+        {"kind": "code", "func": 0, "entry": True, "insns": [["nop"]] * rng.randint(0, 1) + [[rng.choice(["call", "jcc"]), "fa"]], "syms": [{"name": "main1", "at_end": False}]},
+        {"kind": "code", "func": 0, "insns": [[rng.choice(["call", "jcc"]), "fb"]], "syms": [{"name": "main2", "at_end": False}]},
+        {"kind": "code", "func": 0, "insns": [["ret"]], "syms": [{"name": "main3", "at_end": False}]},
+    ]
+    for k, nm in enumerate(["fa", "fb", "fc"]):
+        text.append({"kind": "code", "func": k + 1, "entry": True, "insns": [["nop"]] * rng.randint(0, 2) + [["ret"]], "syms": [{"name": nm, "at_end": False}]})
+    edits = [{"op": "insert", "block": 2, "off": 0, "asm": "nop"}] if rng.random() < 0.3 else []
+    rts = [["fa", "fb"], ["fb", "fc"]]
+    if rng.random() < 0.3:
+        rts.append(["fc", "ext_a"])
+    rng.shuffle(rts)
+    return {"isa": "X64", "ff": "ELF", "text": text, "externs": ["ext_a"], "edits": edits, "retargets": rts}
+
+
 def run(ctx):
     import props.c10 as c10
 
     n = 6 if ctx.tier == "thorough" else 3
     cases = [LE.strip_case(c) for c in LE.load_corpus()]
+    for _ in range(ctx.budget(8, 100)):
+        cases.append(LE.strip_case(retarget_chain(ctx.rng)))
     for k in range(ctx.budget(250, 5000)):
         cases.append(LE.strip_case(vary(emodify.gen_case(ctx.rng), ctx.rng, k)))
     reqs = []
